@@ -80,3 +80,6 @@ Fixpoint nv_write_all (ps : list (bytes * bytes)) : option bytes :=
     | _, _ => None
     end
   end.
+
+(* a pair whose components are encodable: both lengths fit a VarInt *)
+Definition pair_ok (p : bytes * bytes) : Prop := len (fst p) <= VARINT_MAX /\ len (snd p) <= VARINT_MAX.
